@@ -882,6 +882,7 @@ class ReachingDefs:
 class Program:
     def __init__(self, config="NDEBUG", fixtures=None):
         self.config = config
+        self.fixtures = fixtures
         self.paths = build.extract(config, extra_sources=fixtures)
         self.units = {}
         self._fn_index = None
@@ -899,8 +900,14 @@ class Program:
         if u not in self.units:
             if u not in self.paths:
                 raise AnalysisIncomplete("unit %s is not part of the build" % u)
-            with open(self.paths[u]) as f:
-                d = json.load(f)
+            try:
+                with open(self.paths[u]) as f:
+                    d = json.load(f)
+            except (FileNotFoundError, ValueError):
+                # the cache entry disappeared under us (a concurrent run pruned it): extract again
+                self.paths.update(build.extract(self.config, extra_sources=self.fixtures))
+                with open(self.paths[u]) as f:
+                    d = json.load(f)
             fns = {}
             for fd in d["functions"]:
                 fns[fd["name"]] = Function(fd, u, self)
